@@ -5,6 +5,7 @@ From GV Require Import C02.Lr1Model C02.Lr1Spec C02.Lr1Proofs.
 From GV Require Import Base.AnalysesProofs C02.LoopModel C02.LoopSpec C02.LoopProofs C02.LoopEdgeProofs C02.LoopPanicProofs.
 From GV Require Import C02.InducedModel C02.InducedSpec C02.LoopFactsProofs C02.InducedSProofs C02.InducedCProofs C02.InducedEProofs C02.InducedMainProofs.
 From GV Require Import C02.LoopGcProofs C02.LoopTermProofs C02.LoopTotalProofs C02.HeadlineProofs.
+From GV Require C02.Examples.
 
 Theorem C02_validated_automata_agree : validated_automata_agree_stmt.
 Proof. exact validated_automata_agree. Qed.
